@@ -85,7 +85,7 @@ def run(ctx):
         trace = os.path.join(work, tag + ".trace")
         env = {"FAKE_COP_SCRIPT": script, "FAKE_COP_STATE": os.path.join(work, tag + ".state"), "FAKE_COP_LOG": logf}
         if c["hooks"]:
-            env["NANOLANG_VERIF_TRACE"] = trace
+            env["NANOLANG_VERIF_TRACE_COP"] = trace
         r = L.run_vm(ctx, tree, runner, nvm, work, tag, isolate=True, cop_dir=fake_dir, extra_env=env, timeout_ms=30000)
         evs = L.read_fake_log(logf)
         r["script"] = script
